@@ -845,14 +845,16 @@ class Producer(Destination):
             routing_key = subject if subject else self.subject
 
             # If message.expiration is set to an invalid value (like a
-            # non-numeric or a negative value) we "clamp" it to a "0"
+            # non-numeric, a negative or an infinite value) we "clamp" it to
+            # a "0". int() raises OverflowError for infinities and float()
+            # raises TypeError for values that are neither numbers nor strings.
             clamped_expiration = None
             if message.expiration is not None:
                 try:
                     clamped_expiration=str(int(float(message.expiration)))
                     if clamped_expiration.startswith("-"):
                         clamped_expiration = "0"
-                except ValueError as e:
+                except (ValueError, OverflowError, TypeError) as e:
                     clamped_expiration = "0"
 
             properties = pika.BasicProperties(
